@@ -241,6 +241,7 @@ func twoThirds(n int) int {
 type fw struct {
 	*world.World
 	nonce uint32
+	payer common.Address // Payer field of the NEXT transaction only (free-form, unverified data: it proves nothing about who signed)
 }
 
 type baseWorld struct {
@@ -291,7 +292,8 @@ func (f *fw) invoke(contract common.Address, method string, args []byte, signers
 	p.Serialization(sink)
 	f.nonce++
 	tx := &types.Transaction{Version: types.CURR_TX_VERSION, TxType: types.Invoke, Nonce: f.nonce, ChainID: f.ChainID,
-		Payload: &payload.InvokeCode{Code: sink.Bytes()}}
+		Payer: f.payer, Payload: &payload.InvokeCode{Code: sink.Bytes()}}
+	f.payer = common.ADDRESS_EMPTY
 	s2 := common.NewZeroCopySink(nil)
 	if err := tx.Serialization(s2); err != nil {
 		panic(err)
